@@ -3,6 +3,7 @@ mod proj;
 mod util;
 mod tables;
 mod c04;
+mod seq;
 mod cli;
 mod textrec;
 mod text;
@@ -58,6 +59,7 @@ fn main() {
         ("faults", _) => c17::print_counts(),
         ("replay", "text") => text::replay(),
         ("replay", "C19") => cli::replay(),
+        ("replay", "C20") => seq::replay(),
         ("replay", "pipeline") => pipeline::replay_schedules(),
         ("record", "C02") | ("record", "C06") | ("record", "C07") | ("record", "C08") | ("record", "C14") =>
             laws::record(id, &args[3], &args[4], args.get(5).and_then(|s| s.parse().ok()).unwrap_or(5)),
